@@ -181,7 +181,7 @@ impl<'a> G<'a> {
 /// mutate a well-formed value shape into an arbitrary one (for msg_wr / msg_rd)
 fn perturb(r: &mut Rng, s: &Sh) -> Sh {
     match s {
-        Sh::Dyn(m, OptFn::Size(f, a, b, c)) if r.chance(1, 2) => Sh::Dyn(m.clone(), OptFn::Size(f.clone(), *a, *b, c + r.below(70000) as usize)),
+        Sh::Dyn(m, OptFn::Size(f, a, b, c)) if r.chance(1, 2) => { let c2 = c + r.below(70000) as usize; if r.chance(1, 2) { Sh::Dyn(m.clone(), OptFn::Size(f.clone(), *a, *b, c2)) } else { Sh::Dyn(m.clone(), OptFn::SizeSat(f.clone(), *a, *b, c2)) } }
         Sh::Dyn(m, f) => Sh::Dyn(Box::new(perturb(r, m)), f.clone()),
         Sh::U16(le, _) if r.chance(1, 2) => Sh::U16(*le, r.next() as u16 % 12),
         Sh::Comp(fs) => Sh::Comp(fs.iter().map(|(n, m)| (n.clone(), perturb(r, m))).collect()),
